@@ -5,4 +5,5 @@
 //@include boxed_spec.rs
 //@include walk_lemma.rs
 //@include hdr_builder.rs
+//@include hdr_getters.rs
 fn main() {}
